@@ -79,11 +79,62 @@ for month in range(1, 13):
 after = locale.setlocale(locale.LC_TIME)
 if after != before:
     fails.append("LC_TIME of the process was %r before the calls and is %r after them" % (before, after))
+# two listings of one server under way at the same time (a backend that really suspends): every line of both carries the
+# wire format's month, and the process keeps its locale
+import asyncio, tempfile, shutil
+async def overlap():
+    d = tempfile.mkdtemp(prefix="aioftp-verif-lc-")
+    try:
+        stamp = time.mktime((2023, 10, 15, 10, 30, 0, 0, 0, -1))
+        for sub, k in (("a", 120), ("b", 1500)):
+            os.mkdir(os.path.join(d, sub))
+            for i in range(k):
+                fn = os.path.join(d, sub, "f%04d" % i)
+                open(fn, "wb").close()
+                os.utime(fn, (stamp, stamp))
+        server = aioftp.Server([aioftp.User(base_path=d)], path_io_factory=aioftp.AsyncPathIO)
+        await server.start("127.0.0.1", 0)
+        port = server.server.sockets[0].getsockname()[1]
+        async def session(sub):
+            r, w = await asyncio.open_connection("127.0.0.1", port)
+            async def reply():
+                while True:
+                    line = await asyncio.wait_for(r.readline(), 20)
+                    if not line or (line[:3].isdigit() and line[3:4] == b" "):
+                        return line
+            await reply()
+            w.write(b"USER anonymous\r\n"); await reply()
+            w.write(b"EPSV\r\n"); l = await reply()
+            dport = int(l.decode().split("|")[-2])
+            dr, dw = await asyncio.open_connection("127.0.0.1", dport)
+            w.write(("LIST " + sub + "\r\n").encode()); await reply()
+            data = await asyncio.wait_for(dr.read(), 60)
+            await reply()
+            dw.close(); w.close()
+            return data.decode("utf-8", "replace").splitlines()
+        try:
+            la, lb = await asyncio.gather(session("a"), session("b"))
+        finally:
+            await server.close()
+        wrong = [l for l in la + lb if " Oct 15  2023 " not in l]
+        return len(la), len(lb), wrong
+    finally:
+        shutil.rmtree(d, ignore_errors=True)
+try:
+    na, nb, wrong = asyncio.run(overlap())
+    n += na + nb
+    if (na, nb) != (120, 1500) or wrong:
+        fails.append("two LIST transfers of one server under way at the same time under LC_TIME=%s: %d + %d lines (want 120 + 1500), %d of them do not carry the wire format's date 'Oct 15  2023', e.g. %r" % (name, na, nb, len(wrong), (wrong or [""])[0][-40:]))
+    after2 = locale.setlocale(locale.LC_TIME)
+    if after2 != before:
+        fails.append("LC_TIME of the process was %r before the overlapping listings and is %r after them" % (before, after2))
+except Exception as e:
+    fails.append("overlapping listings under LC_TIME=%s: %s: %s" % (name, type(e).__name__, e))
 print(json.dumps({"locale": name, "cases": n, "fails": fails[:10], "nfails": len(fails)}))
 '''
 
 
-def run(ctx):
+def run(ctx, pid="C07"):
     res = Result()
     src = os.path.join(os.environ.get("AIOFTP_REPO", "/repo"), "src")
     with tempfile.TemporaryDirectory() as d:
@@ -103,7 +154,7 @@ def run(ctx):
     res.count("foreign_lc_time:" + out["locale"], out["cases"])
     res.distinct.add(("foreign-lc-time", out["locale"]))
     for f in out["fails"][:3]:
-        res.oracle_failures.append({"input": {"kind": "foreign-lc-time", "locale": out["locale"]}, "what": f, "signature": "C07:ls-date-follows-the-process-locale"})
+        res.oracle_failures.append({"input": {"kind": "foreign-lc-time", "locale": out["locale"]}, "what": f, "signature": "%s:ls-date-follows-the-process-locale" % pid})
     return res
 
 
